@@ -1,6 +1,318 @@
 package main
 
+// Replay of solver counter-models against the real code: a generated
+// in-package test is injected with `go test -overlay` (nothing is written to
+// the repository), run, and its verdict recorded in the replay file.
+
+import (
+	"bytes"
+	"context"
+	"encoding/json"
+	"fmt"
+	"math/big"
+	"os"
+	"os/exec"
+	"path/filepath"
+	"regexp"
+	"strings"
+	"time"
+
+	"golang.org/x/tools/go/ssa"
+)
+
+type ReplayCtx struct {
+	prog *Program
+	vc   *VC
+	o    *Obl
+	dir  string
+}
+
+// Eval asks the solver that produced the model for the values of terms.
+func (rc *ReplayCtx) Eval(terms ...string) ([]string, bool) {
+	q := rc.vc.Query(rc.o)
+	q += "(get-value (" + strings.Join(terms, " ") + "))\n"
+	file := filepath.Join(rc.dir, "replay-eval.smt2")
+	os.WriteFile(file, []byte(q), 0o644)
+	for _, s := range []string{rc.o.Solver, "z3-new", "z3"} {
+		if s != "z3" && s != "z3-new" {
+			continue
+		}
+		ctx, cancel := context.WithTimeout(context.Background(), 30*time.Second)
+		out, _ := exec.CommandContext(ctx, s, "-t:20000", file).CombinedOutput()
+		cancel()
+		txt := string(out)
+		i := strings.Index(txt, "sat")
+		if !strings.HasPrefix(strings.TrimSpace(txt), "sat") || i < 0 {
+			continue
+		}
+		vals, ok := parseGetValue(txt[i+3:], len(terms))
+		if ok {
+			return vals, true
+		}
+	}
+	return nil, false
+}
+
+// parseGetValue extracts the value s-expressions of a (get-value) answer.
+func parseGetValue(s string, n int) ([]string, bool) {
+	s = strings.TrimSpace(s)
+	if !strings.HasPrefix(s, "(") {
+		return nil, false
+	}
+	// top-level list of (term value) pairs
+	items := splitSexp(s[1:])
+	var out []string
+	for _, it := range items {
+		it = strings.TrimSpace(it)
+		if !strings.HasPrefix(it, "(") {
+			continue
+		}
+		parts := splitSexp(it[1 : len(it)-1])
+		if len(parts) != 2 {
+			return nil, false
+		}
+		out = append(out, strings.TrimSpace(parts[1]))
+	}
+	if len(out) != n {
+		return nil, false
+	}
+	return out, true
+}
+
+// splitSexp splits a sequence of s-expressions at top level.
+func splitSexp(s string) []string {
+	var out []string
+	depth, start := 0, -1
+	inStr := false
+	for i := 0; i < len(s); i++ {
+		c := s[i]
+		if inStr {
+			if c == '"' {
+				inStr = false
+			}
+			continue
+		}
+		switch {
+		case c == '"':
+			inStr = true
+			if start < 0 {
+				start = i
+			}
+		case c == '(':
+			if depth == 0 && start < 0 {
+				start = i
+			}
+			depth++
+		case c == ')':
+			depth--
+			if depth < 0 {
+				if start >= 0 {
+					out = append(out, s[start:i])
+				}
+				return out
+			}
+			if depth == 0 && start >= 0 {
+				out = append(out, s[start:i+1])
+				start = -1
+			}
+		case c == ' ' || c == '\n' || c == '\t':
+			if depth == 0 && start >= 0 {
+				out = append(out, s[start:i])
+				start = -1
+			}
+		default:
+			if start < 0 {
+				start = i
+			}
+		}
+	}
+	if start >= 0 {
+		out = append(out, s[start:])
+	}
+	return out
+}
+
+var reBV = regexp.MustCompile(`^\(_ bv(\d+) (\d+)\)$`)
+
+// smtNum parses an integer / bit-vector model value (signed interpretation if signed).
+func smtNum(v string, signed bool) (*big.Int, bool) {
+	v = strings.TrimSpace(v)
+	if strings.HasPrefix(v, "#x") {
+		n, ok := new(big.Int).SetString(v[2:], 16)
+		if ok && signed {
+			bits := uint(len(v[2:]) * 4)
+			if n.Bit(int(bits-1)) == 1 {
+				n.Sub(n, new(big.Int).Lsh(big.NewInt(1), bits))
+			}
+		}
+		return n, ok
+	}
+	if strings.HasPrefix(v, "#b") {
+		n, ok := new(big.Int).SetString(v[2:], 2)
+		if ok && signed {
+			bits := uint(len(v[2:]))
+			if n.Bit(int(bits-1)) == 1 {
+				n.Sub(n, new(big.Int).Lsh(big.NewInt(1), bits))
+			}
+		}
+		return n, ok
+	}
+	if m := reBV.FindStringSubmatch(v); m != nil {
+		n, ok := new(big.Int).SetString(m[1], 10)
+		return n, ok
+	}
+	if strings.HasPrefix(v, "(- ") {
+		n, ok := new(big.Int).SetString(strings.TrimSpace(v[3:len(v)-1]), 10)
+		if ok {
+			n.Neg(n)
+		}
+		return n, ok
+	}
+	n, ok := new(big.Int).SetString(v, 10)
+	return n, ok
+}
+
+// EvalInts evaluates terms to integers.
+func (rc *ReplayCtx) EvalInts(signed bool, terms ...string) ([]int64, bool) {
+	vs, ok := rc.Eval(terms...)
+	if !ok {
+		return nil, false
+	}
+	var out []int64
+	for _, v := range vs {
+		n, ok := smtNum(v, signed)
+		if !ok || !n.IsInt64() {
+			return nil, false
+		}
+		out = append(out, n.Int64())
+	}
+	return out, true
+}
+
+// SliceBytes reads up to max bytes of a byte slice term in heap version h.
+func (rc *ReplayCtx) SliceBytes(slice, heap string, max int64) ([]byte, bool) {
+	ar := rc.vc.ar
+	ln, ok := rc.EvalInts(true, sx("slen", slice))
+	if !ok {
+		return nil, false
+	}
+	n := ln[0]
+	if n < 0 || n > max {
+		if n > max {
+			n = max
+		} else {
+			return nil, false
+		}
+	}
+	if n == 0 {
+		return []byte{}, true
+	}
+	var ts []string
+	for i := int64(0); i < n; i++ {
+		ts = append(ts, sx("select", heap, sx("lelem", sx("sbase", slice), ar.ixadd(sx("soff", slice), ar.ix(i)))))
+	}
+	vs, ok := rc.EvalInts(false, ts...)
+	if !ok {
+		return nil, false
+	}
+	out := make([]byte, n)
+	for i, v := range vs {
+		out[i] = byte(v)
+	}
+	return out, true
+}
+
+func (rc *ReplayCtx) byteHeap(st *State) string {
+	return rc.vc.heapGet(st, "[]uint8", nil)
+}
+
+// findCall returns the first call instruction whose callee name contains sub.
+func (rc *ReplayCtx) findCall(sub string) *ssa.Call {
+	for _, b := range rc.vc.fn.Blocks {
+		for _, ins := range b.Instrs {
+			if c, ok := ins.(*ssa.Call); ok {
+				key, _, _ := rc.vc.calleeKey(c.Common())
+				if strings.Contains(key, sub) {
+					return c
+				}
+			}
+		}
+	}
+	return nil
+}
+
+type replayGen func(rc *ReplayCtx) (pkgDir, testName, src string, ok bool)
+
+var replayGens = map[string]replayGen{}
+
+func goBytes(b []byte) string {
+	var sb strings.Builder
+	sb.WriteString("[]byte{")
+	for i, x := range b {
+		if i > 0 {
+			sb.WriteString(",")
+		}
+		fmt.Fprintf(&sb, "%d", x)
+	}
+	sb.WriteString("}")
+	return sb.String()
+}
+
+// runOverlayTest injects src as an in-package test of pkgDir (relative to the repo) and runs it.
+func runOverlayTest(repo, pkgDir, testName, src, dir string) (failed bool, output string) {
+	testFile := filepath.Join(dir, "zz_replay_test.go")
+	os.WriteFile(testFile, []byte(src), 0o644)
+	ov := map[string]map[string]string{"Replace": {filepath.Join(repo, pkgDir, "zz_govc_replay_test.go"): testFile}}
+	ovData, _ := json.Marshal(ov)
+	ovFile := filepath.Join(dir, "overlay.json")
+	os.WriteFile(ovFile, ovData, 0o644)
+	ctx, cancel := context.WithTimeout(context.Background(), 180*time.Second)
+	defer cancel()
+	cmd := exec.CommandContext(ctx, "go", "test", "-overlay", ovFile, "-vet=off", "-count=1", "-timeout", "60s", "-run", "^"+testName+"$", "./"+pkgDir)
+	cmd.Dir = repo
+	cmd.Env = append(os.Environ(), "GOFLAGS=-mod=mod", "GOPROXY=off", "GOSUMDB=off", "GOTOOLCHAIN=local")
+	var buf bytes.Buffer
+	cmd.Stdout, cmd.Stderr = &buf, &buf
+	err := cmd.Run()
+	out := buf.String()
+	if len(out) > 6000 {
+		out = out[:6000] + "..."
+	}
+	return err != nil && strings.Contains(out, "REPLAY-VIOLATION"), out
+}
+
 // tryReplay turns a solver model into a concrete input and runs the real code.
 func tryReplay(prog *Program, vc *VC, o *Obl, verif string) (bool, string) {
-	return false, ""
+	if vc.fn == nil {
+		return false, ""
+	}
+	gen, ok := replayGens[vc.pkg.Name()+"."+vc.name]
+	if !ok {
+		return false, "no replay generator for this function"
+	}
+	dir, _ := os.MkdirTemp("/var/tmp", "govc-replay-")
+	defer os.RemoveAll(dir)
+	rc := &ReplayCtx{prog: prog, vc: vc, o: o, dir: dir}
+	pkgDir, testName, src, ok := gen(rc)
+	if !ok {
+		return false, "the model could not be turned into a concrete input"
+	}
+	failed, out := runOverlayTest(prog.repo, pkgDir, testName, src, dir)
+	replayNotes[o.Name] = map[string]interface{}{
+		"test_source": src,
+		"command":     fmt.Sprintf("cd %s && go test -overlay <overlay.json> -vet=off -count=1 -timeout 60s -run '^%s$' ./%s", prog.repo, testName, pkgDir),
+		"output":      out,
+		"reproduced":  failed,
+	}
+	if failed {
+		line := ""
+		for _, l := range strings.Split(out, "\n") {
+			if strings.Contains(l, "REPLAY-VIOLATION") {
+				line = strings.TrimSpace(l)
+				break
+			}
+		}
+		return true, line
+	}
+	return false, "replay on the real code did not reproduce a violation"
 }
